@@ -256,7 +256,7 @@ def main(argv):
                 sn = cfg["expected"](kind, cid)
                 if sn:
                     expected = eval_snippet(pid, r["shard"], sn)
-            tags = list(case.get("tags", [])) if isinstance(case, dict) else []
+            tags = list(case.get("tags") or []) if isinstance(case, dict) else []
             violations.append(dict(tags=tags + ["kind:" + kname], what="%s (case %d): %s" % (kname, cid, kdesc), nofail=not failing, id=cid,
                                    replay=dict(kind="failing-input" if failing else "no-failing-input-found", check=kname,
                                                theorem_or_correspondence=kdesc, id=cid, case=case, model_expected=expected)))
